@@ -405,6 +405,10 @@ func runC03(r *Report, rng *rand.Rand, thorough bool) {
 	}
 	cmetas := map[string]cmeta{}
 	randVal := func() string {
+		// one value in six carries characters that are legal in a path segment and that a query-style decoder would change
+		if rng.Intn(6) == 0 {
+			return []string{"a+b", "c++", "+45", "x.y", "~t", "a-b_c", "p=q", "v1;x"}[rng.Intn(8)]
+		}
 		const al = "abcdefghijklmnopqrstuvwxyz0123456789"
 		n := 1 + rng.Intn(6)
 		b := make([]byte, n)
@@ -413,6 +417,7 @@ func runC03(r *Report, rng *rand.Rand, thorough bool) {
 		}
 		return string(b)
 	}
+	plusDone := map[string]bool{}
 	for si, set := range sets {
 		for _, fw := range Frameworks {
 			name := fmt.Sprintf("c03_s%d_%s", si, fw)
@@ -485,6 +490,17 @@ func runC03(r *Report, rng *rand.Rand, thorough bool) {
 						}
 					}
 					add("match", rt.method, segs)
+					if len(rt.vars()) > 0 && !plusDone[name] {
+						// once per server: every variable of a route holds a value with plus signs
+						plusDone[name] = true
+						ps := append([]string(nil), segs...)
+						for i, sg := range rt.tmpl {
+							if sg.v != "" {
+								ps[i] = []string{"a+b", "c++", "+45"}[i%3]
+							}
+						}
+						add("match", rt.method, ps)
+					}
 					if set.slash {
 						r.Dist["family=final-slash"]++
 						continue
@@ -704,7 +720,7 @@ func runC03(r *Report, rng *rand.Rand, thorough bool) {
 		}
 	}
 	dcases.WriteTo(r)
-	r.Rule = "function level: random path templates through SwaggerUriTo{Echo,Chi,Gin,Gorilla,StdHttp,Fiber,Iris}Uri, OrderedParamsFromUri and SortParamsByPath (permuted, missing, extra and renamed declarations) vs the model; generated routers: random route sets (shared prefixes, static/templated siblings, 0-4 variables, path-level / operation-level / overridden parameter declarations in shuffled order) x 7 frameworks x with/without base URL x strict/non-strict x the generated entry points (options value; plain form; the caller's own router, with and without base URL, served itself), requests = matching paths with random values, extra/missing segment, other method, value equal to a sibling literal, missing base prefix; one fixed set of paths differing in a final slash plus the root path (/, /pets, /pets/, /pets/{id}); non-trivial = a near-miss or sibling probe"
+	r.Rule = "function level: random path templates through SwaggerUriTo{Echo,Chi,Gin,Gorilla,StdHttp,Fiber,Iris}Uri, OrderedParamsFromUri and SortParamsByPath (permuted, missing, extra and renamed declarations) vs the model; generated routers: random route sets (shared prefixes, static/templated siblings, 0-4 variables, path-level / operation-level / overridden parameter declarations in shuffled order) x 7 frameworks x with/without base URL x strict/non-strict x the generated entry points (options value; plain form; the caller's own router, with and without base URL, served itself), requests = matching paths with random values (alphanumeric; one in six with + . ~ - _ = ;), extra/missing segment, other method, value equal to a sibling literal, missing base prefix; one fixed set of paths differing in a final slash plus the root path (/, /pets, /pets/, /pets/{id}); non-trivial = a near-miss or sibling probe"
 }
 
 func handlerNames(hs []LabEvent) []string {
